@@ -1,7 +1,6 @@
 package main
 
 import (
-	"bytes"
 	"fmt"
 	"os"
 	"path/filepath"
@@ -86,8 +85,10 @@ func (a *errArea) Run(line string) string {
 		return "FAIL mktemp"
 	}
 	defer os.RemoveAll(root)
-	rec1 := bytes.Repeat([]byte{0x31}, n1)
-	rec2 := bytes.Repeat([]byte{0x32}, n2)
+	rec1 := make([]byte, n1) // position-dependent contents
+	fillRec(rec1, 17)
+	rec2 := make([]byte, n2)
+	fillRec(rec2, 101)
 	mk := func(path string) (*rotation.Rotator, string) {
 		r, nerr := rotation.New(rotation.Path(path), rotation.MaxSize(int64(max)), rotation.MaxBackups(backups))
 		if nerr != nil {
